@@ -69,6 +69,32 @@ pub fn emit(mut ev: J) {
     }
 }
 
+thread_local! {
+    static DEPTH: std::cell::Cell<u32> = const { std::cell::Cell::new(0) };
+}
+
+/// Marks one activation of `VM::run`; the nesting depth is part of every `op` event.
+pub struct RunGuard;
+
+impl RunGuard {
+    #[allow(clippy::new_without_default)]
+    pub fn new() -> Self {
+        DEPTH.with(|d| d.set(d.get() + 1));
+        RunGuard
+    }
+}
+
+impl Drop for RunGuard {
+    fn drop(&mut self) {
+        DEPTH.with(|d| d.set(d.get().saturating_sub(1)));
+    }
+}
+
+/// Current nesting depth of `VM::run` activations.
+pub fn depth() -> u32 {
+    DEPTH.with(|d| d.get())
+}
+
 /// Drains the in-memory buffer.
 pub fn take() -> Vec<J> {
     BUF.with(|b| std::mem::take(&mut *b.borrow_mut()))
